@@ -347,6 +347,7 @@ fn check(case: &Case, obs: &mut Obs) -> Verdict {
 fn sop() -> BoxedStrategy<SOp> {
     prop_oneof![
         4 => gen::msg(60).prop_map(SOp::Seal),
+        1 => gen::msg(2500).prop_map(SOp::Seal),
         3 => Just(SOp::OpenNext),
         1 => Just(SOp::OpenBad),
         1 => (gen::bytes(20), 0u16..80).prop_map(|(ctx, len)| SOp::ExportS { ctx, len }),
